@@ -679,7 +679,8 @@ def unchanged_case(item):
     _, j, seed = item
     files = {
         'y.do': scen.TRACE_HDR + 'echo "S $1 $$ $PPID" >&9\necho "y#0 first" >&2\necho "y#1 second" >&2\necho y > "$3"\necho "E $1 $$ 0" >&9\n',
-        'x.do': scen.TRACE_HDR + 'echo "S $1 $$ $PPID" >&9\necho "x#0 before" >&2\nredo-ifchange y xsrc\necho "x#1 after" >&2\necho x > "$3"\necho "E $1 $$ 0" >&9\n',
+        'z.do': scen.TRACE_HDR + 'echo "S $1 $$ $PPID" >&9\necho z > "$3"\necho "E $1 $$ 0" >&9\n',       # a dependency that says nothing
+        'x.do': scen.TRACE_HDR + 'echo "S $1 $$ $PPID" >&9\necho "x#0 before" >&2\nredo-ifchange y xsrc\necho "x#1 after" >&2\nredo-ifchange z\necho "x#2 after the silent one" >&2\necho x > "$3"\necho "E $1 $$ 0" >&9\n',
         'xsrc': 'v0\n',
     }
     pj = scen.Project(files, 'c18u')
@@ -703,9 +704,9 @@ def unchanged_case(item):
                 continue
             per, recs, problems = attribute(r2.out)
             per = {os.path.normpath(k): [g.rstrip() for g in v] for k, v in per.items()}
-            if per.get('x') != ['x#0 before', 'x#1 after']:
+            if per.get('x') != ['x#0 before', 'x#1 after', 'x#2 after the silent one']:
                 anoms.append(dict(key='%s:lines-under-wrong-target:unchanged-dependency' % what,
-                                  what='redo-log %s x shows %s under x (the script wrote x#0 before, x#1 after); all: %s' % (' '.join(flags), per.get('x'), per)))
+                                  what='redo-log %s x shows %s under x (the script wrote x#0 before, x#1 after, x#2 after the silent one); all: %s' % (' '.join(flags), per.get('x'), per)))
             if '-u' in flags and per.get('y') != ['y#0 first', 'y#1 second']:
                 anoms.append(dict(key='%s:lines-lost:unchanged-dependency' % what, what='redo-log -r -u x shows %s under y (its log holds y#0 first, y#1 second)' % per.get('y')))
             obs['unchanged_lines_attributed'] = obs.get('unchanged_lines_attributed', 0) + sum(len(v) for v in per.values())
